@@ -18,31 +18,33 @@ tvars == <<vars, idx>>
 
 SeqToSet(s) == {s[k] : k \in DOMAIN s}
 Last == hist'[Len(hist')]
-EvMsg(e) == Msg(e.p, e.pd, e.pu)
+EvMsg(e) == Msg(e.key, e.p, e.pd, e.pu)
+EvUnit(e) == <<e.n, e.key>>
 
 PostOK(e) ==
   /\ Last.post.clock = e.clock
   /\ \A n \in Node :
-       LET a == Last.post.nodes[n]
-           b == e.post[n]
-       IN /\ a.val = b.val /\ a.ver = b.ver /\ a.read = b.read
-          /\ a.del = b.del /\ a.upd = b.upd
-          /\ a.ql = b.ql /\ a.qg = b.qg
-          /\ a.called = b.called /\ a.last = b.last /\ a.held = b.held
-          /\ a.pcalled = (b.pcalls > 0) /\ a.plast = b.plast   \* the un-gated prefix watcher
-          /\ a.wk = b.wk /\ a.gate = b.gate                    \* where the per-key worker is blocked
-          /\ b.bad = ""                                        \* well-formed content (tokens, ids, List)
+       /\ Last.post.nodes[n].ql = e.post[n].ql /\ Last.post.nodes[n].qg = e.post[n].qg
+       /\ \A k \in Key :
+            LET a == Last.post.nodes[n].keys[k]
+                b == e.post[n].keys[k]
+            IN /\ a.val = b.val /\ a.ver = b.ver /\ a.read = b.read
+               /\ a.del = b.del /\ a.upd = b.upd
+               /\ a.called = b.called /\ a.last = b.last /\ a.held = b.held
+               /\ a.pcalled = (b.pcalls > 0) /\ a.plast = b.plast   \* the un-gated prefix watcher
+               /\ a.wk = b.wk /\ a.gate = b.gate                    \* where the per-key worker is blocked
+               /\ b.bad = ""                                        \* well-formed content (tokens, ids, List)
 
 ResetAll ==
   /\ clock' = 0
-  /\ store'  = [n \in Node |-> C0]
+  /\ store'  = [u \in Unit |-> C0]
   /\ queueL' = [n \in Node |-> {}]
   /\ queueG' = [n \in Node |-> {}]
-  /\ watch'  = [n \in Node |-> W0]
-  /\ pw'     = [n \in Node |-> PW0]
-  /\ gate'   = [n \in Node |-> FALSE]
-  /\ wk'     = [n \in Node |-> WK0]
-  /\ inbox'  = [n \in Node |-> <<>>]
+  /\ watch'  = [u \in Unit |-> W0]
+  /\ pw'     = [u \in Unit |-> PW0]
+  /\ gate'   = [u \in Unit |-> FALSE]
+  /\ wk'     = [u \in Unit |-> WK0]
+  /\ inbox'  = [u \in Unit |-> <<>>]
   /\ sent' = {} /\ cut' = {} /\ ncas' = 0 /\ nfault' = 0 /\ ndel' = 0
   /\ phase' = "run" /\ qidx' = 1
   /\ inval' = {} /\ fwd' = {} /\ written' = {}
@@ -56,18 +58,18 @@ TNext ==
   /\ LET e == TraceLog[idx] IN
        CASE e.a = "Reset"     -> ResetAll
          [] e.a = "Tick"      -> Tick /\ PostOK(e)
-         [] e.a = "Cas"       -> Cas(e.n, [op |-> e.f.op, i |-> e.f.i, s |-> e.f.s]) /\ Last.res = e.res /\ PostOK(e)
+         [] e.a = "Cas"       -> Cas(EvUnit(e), [op |-> e.f.op, i |-> e.f.i, s |-> e.f.s]) /\ Last.res = e.res /\ PostOK(e)
          [] e.a = "Gossip"    -> Gossip(e.n) /\ Last.out = SeqToSet(e.out) /\ PostOK(e)
          [] e.a = "Deliver"   -> Deliver(EvMsg(e), e.n, FALSE) /\ PostOK(e)
-         [] e.a = "Work"      -> Work(e.n) /\ PostOK(e)
-         [] e.a = "GateClose" -> GateClose(e.n) /\ PostOK(e)
-         [] e.a = "GateOpen"  -> GateOpen(e.n) /\ PostOK(e)
+         [] e.a = "Work"      -> Work(EvUnit(e)) /\ PostOK(e)
+         [] e.a = "GateClose" -> GateClose(EvUnit(e)) /\ PostOK(e)
+         [] e.a = "GateOpen"  -> GateOpen(EvUnit(e)) /\ PostOK(e)
          [] e.a = "Garbage"   -> DeliverGarbage(EvMsg(e), e.n, e.k) /\ PostOK(e)
          [] e.a = "PushPull"  -> PushPull(e.n, e.m, e.k = "junk") /\ PostOK(e)
-         [] e.a = "Delete"    -> DeleteKey(e.n) /\ e.res = "done" /\ PostOK(e)
+         [] e.a = "Delete"    -> DeleteKey(EvUnit(e)) /\ e.res = "done" /\ PostOK(e)
          [] e.a = "Cleanup"   -> Cleanup(e.n) /\ PostOK(e)
-         [] e.a = "Arm"       -> WatcherArm(e.n) /\ PostOK(e)
-         [] e.a = "Release"   -> WatcherRelease(e.n) /\ PostOK(e)
+         [] e.a = "Arm"       -> WatcherArm(EvUnit(e)) /\ PostOK(e)
+         [] e.a = "Release"   -> WatcherRelease(EvUnit(e)) /\ PostOK(e)
          [] e.a = "Restart"   -> Restart(e.n) /\ PostOK(e)
 
 TSpec == TInit /\ [][TNext]_tvars
